@@ -65,7 +65,7 @@ def gen_bool_expr(rng, in_loops):
                            'true\n', '1\n', '1.0\n', 'TRUE\n', 'true\n\n', 'true ', '\ttrue', 'true\r\n', '{nl}', '{nl}'])
     if r < 0.52:
         return rng.choice(['{flag}', '{nflag}', '{sflag}', '{n}', '{empty}', 'x{flag}', '{word}', '{flag}', '{nflag}',
-                           '{missing_key}'])
+                           '{missing_key}', '{byt}', '{ebyt}'])
     if r < 0.58:
         return rng.choice([0, 1, 2, None, HALF, {'l': []}, {'l': [0]}, {'d': []}])
     # !py expressions
@@ -293,12 +293,15 @@ def gen_step(rng, p, pipe, group, idx, targets, handlers, later_pipes, depth_tag
         r = rng.random()
         if r < 0.45:
             cfg.append(['args', {'d': rng.choice([[['cnt', 0]], [['flag', True], ['word', 'child {word}']],
-                                                  [['shared', '{cnt}']], []])}])
+                                                  [['shared', '{cnt}']], [],
+                                                  [['lst', {'l': [8]}], ['mlist', {'l': [5, 6]}], ['cnt', 0]],
+                                                  [['lst', {'l': [8, 9]}], ['mlist', {'l': ['c1']}]]])}])
         if rng.random() < 0.3:
             cfg.append(['useParentContext', rng.choice([True, False])])
         if rng.random() < 0.4:
             cfg.append(['out', rng.choice(['cnt', {'l': ['cnt', 'word']}, {'d': [['out1', 'cnt'], ['out2', 'word']]},
-                                           'nokey', {'l': []}])])
+                                           'nokey', {'l': []}, 'lst', {'l': ['lst', 'mlist']}, {'d': [['mlist', 'lst']]},
+                                           'mlist'])])
         if rng.random() < 0.3:
             cfg.append(['raiseError', rng.choice([True, False])])
         if rng.random() < 0.3:
@@ -365,7 +368,8 @@ def gen_case(rng, profile=None):
                ['cnt', 0], ['grp', 'nogroup' if rng.random() < 0.07 else 'gz'],
                ['word', rng.choice(['abc', 'x y', 'true'])], ['tup', {'t': ['t1', 't2']}],
                ['bo', rng.choice(['fixed', 'linear'])], ['mlist', {'l': [0]}],
-               ['nl', rng.choice(['true\n', '1\n', 'True\n', '1.0\n', 'false\n'])]]
+               ['nl', rng.choice(['true\n', '1\n', 'True\n', '1.0\n', 'false\n'])],
+               ['byt', {'b': rng.choice(['raw', 'true', '0', 'False'])}], ['ebyt', {'b': ''}]]
     case = {'lib': lib, 'main': 'main', 'dict_in': dict_in, 'jit': rng.choice([[1, 4], [0, 1], [1, 1], [1, 2]])}
     if rng.random() < 0.06:
         case['flow'] = True         # the pipeline file written on one line, flow style
@@ -502,6 +506,73 @@ def falsy_item_call(rng, case):
                                                                     ['pwatch', {'l': ['i']}]]}]]] + groups + \
         [['fic', callee], ['gz', [{'body': 'probe', 'in': [['ptag', 'main/gz/0']]}]]]
     case.pop('groups', None)
+    return case
+
+
+def handler_jumps(rng, case):
+    """a failure handler (of the pipeline, or of a call) that JUMPS to another group which then stops /
+    fails / completes: only a stop issued by the failure group itself ends the failure quietly."""
+    groups = [gs for gs in case['lib'][0][1] if gs[0] not in ('steps', 'hj', 'hjt', 'hjb', 'gz', 'on_failure')]
+    end = rng.choice(['stopstepgroup', 'stopstepgroup', 'stop', 'stoppipeline', 'probe', 'fail'])
+    target = [{'body': 'probe', 'in': [['ptag', 'main/hjt/0']]}]
+    if end == 'fail':
+        target.append({'body': 'fail', 'in': [['ptag', 'main/hjt/1'], ['vfail', {'d': [['err', 'RuntimeError'], ['msg', 'in target']]}]]})
+    elif end != 'probe':
+        target.append({'body': end, 'in': [['ptag', 'main/hjt/1']]})
+    target.append({'body': 'probe', 'in': [['ptag', 'main/hjt/2']]})
+    handler = [{'body': 'probe', 'in': [['ptag', 'main/hj/0']]},
+               {'body': 'jump', 'in': [['ptag', 'main/hj/1'], ['jump', rng.choice(['hjt', {'l': ['hjt']}, {'d': [['groups', {'l': ['hjt']}]]}])]]},
+               {'body': 'probe', 'in': [['ptag', 'main/hj/2']]}]
+    failing = [{'body': 'probe', 'in': [['ptag', 'main/hjb/0']]},
+               {'body': 'fail', 'in': [['ptag', 'main/hjb/1'], ['vfail', {'d': [['err', 'ValueError'], ['msg', 'boom']]}]]}]
+    after = {'body': 'probe', 'in': [['ptag', 'main/steps/after']]}
+    if rng.random() < 0.5:
+        # pipeline-level: the failing step is in steps, on_failure is the jumping handler
+        steps = [failing[1], after]
+        extra = [['on_failure', handler]]
+        case.pop('failure', None)
+    else:
+        cfg = {'d': [['groups', {'l': ['hjb']}], ['failure', 'hj']]}
+        callstep = {'body': 'call', 'in': [['ptag', 'main/steps/0'], ['call', cfg]]}
+        if rng.random() < 0.4:
+            callstep['swallow'] = True
+        steps = [callstep, after]
+        extra = [['hjb', failing], ['hj', handler]]
+    case['lib'][0][1] = [['steps', steps]] + groups + extra + [['hjt', target],
+                                                              ['gz', [{'body': 'probe', 'in': [['ptag', 'main/gz/0']]}]]]
+    case.pop('groups', None)
+    return case
+
+
+def pype_out_containers(rng, case):
+    """a child with its own context hands CONTAINERS back through `out` into parent keys that already
+    hold containers: the parent's value is replaced by the child's, never combined with it."""
+    if len(case['lib']) < 2 or case.get('dict_in') is None:
+        return case
+    child = case['lib'][1][0]
+    args = rng.choice([[['lst', {'l': [8]}], ['mlist', {'l': [5, 6]}], ['cnt', 0]],
+                       [['lst', {'l': []}], ['mlist', {'l': ['c1']}], ['newd', {'d': [['k', 1]]}]],
+                       [['lst', {'l': [1, 2]}], ['mlist', {'l': [0]}]]])
+    out = rng.choice(['lst', {'l': ['lst', 'mlist']}, {'d': [['mlist', 'lst']]}, {'d': [['lst', 'mlist'], ['fresh', 'lst']]},
+                      'newd'])
+    cfg = [['name', child], ['args', {'d': args}], ['out', out]]
+    if rng.random() < 0.3:
+        cfg.append(['useParentContext', False])
+    first = {'body': 'pype', 'in': [['ptag', 'main/steps/0'], ['pype', {'d': cfg}]]}
+    if rng.random() < 0.3:
+        first['foreach'] = {'l': [1, 2]}
+    watch = {'body': 'probe', 'in': [['ptag', 'main/steps/w'], ['pwatch', {'l': ['lst', 'mlist', 'fresh', 'newd']}]]}
+    # the child: something simple that completes (optionally growing its own list first)
+    cg = [{'body': 'probe', 'in': [['ptag', f'{child}/steps/0'], ['pwatch', {'l': ['lst']}]]}]
+    if rng.random() < 0.5:
+        cg.append({'body': 'set', 'in': [['ptag', f'{child}/steps/1'], ['set', {'d': [['lst', {'l': [7, 'x']}]]}]]})
+    case['lib'][1][1] = [['steps', cg], ['gz', [{'body': 'probe', 'in': [['ptag', f'{child}/gz/0']]}]]]
+    for g in case['lib'][0][1]:
+        if g[0] == 'steps':
+            g[1] = [first, watch] + (g[1] or [])
+            break
+    else:
+        case['lib'][0][1].insert(0, ['steps', [first, watch]])
     return case
 
 
